@@ -150,6 +150,10 @@ func (fr *Frame) locInvoke(recv IfaceV, rt types.Type, m *types.Func, args []Val
 			dk := c.vecElem(st, dims, k, one)
 			c.assume(st.reach, implies(app(SBool, "<", intLit(k), dims.Len), eq(c.ndDim(r, intLit(k)), dk)))
 			// the slice stays inside its parent (obligation of the caller of Slice)
+			if c.fc != nil && c.fc.ViewsUnchecked {
+				c.note("views unchecked: Slice performs no bounds checks; views that extend beyond their parent are accepted here and the flat-index safety of reads through them is not covered")
+				continue
+			}
 			c.oblige(st, "pre@call", "C04.slice-in-bounds", []string{"C04"}, implies(app(SBool, "<", intLit(k), dims.Len),
 				and(app(SBool, "<=", zero, l[k]), app(SBool, ">=", dk, zero), app(SBool, ">=", s[k], one),
 					implies(app(SBool, ">=", dk, one), app(SBool, "<=", app(SInt, "+", l[k], app(SInt, "*", app(SInt, "-", dk, one), s[k])), app(SInt, "-", c.ndDim(recv, intLit(k)), one))))), pos,
